@@ -12,14 +12,22 @@ RULE = ('a case = one call of push/pushadd/delete with a recording handler: job 
         'euro U+1F600, UTF-8 length boundaries, empty, long), non-string values (int, float, None, bool), gateway spelled '
         'with/without scheme (http, https, upper case), path prefix and 0-3 trailing slashes, 7 timeouts; exhaustive: every '
         'string of length <= 2 over a 15-character core alphabet as job and as label value; many cases carry a near-colliding '
-        'twin input whose URL must differ; non-trivial = some component needs base64, %-escaping or the empty marker, or >= 2 '
-        'labels out of order; distinct by full case')
+        'twin input whose URL must differ; the registry given is a one-gauge registry or one of: fresh (no collector), last '
+        'collector unregistered, collectors that return/yield nothing (EMPTY exposition), a labelled metric without children '
+        '(metadata only), several labelled families - plain CollectorRegistry or a subclass with __len__ (falsy when empty); '
+        'the handler is a function, a callable object, or a callable object that is falsy; every api x registry kind x handler '
+        'kind x {job only, default key, 2 labels} is enumerated; observed per call: the number of requests handed to the '
+        'handler (must be exactly one), url, method, Content-Type, the body bytes, timeout, invocations of the returned '
+        'callable; non-trivial = some component needs base64, %-escaping or the empty marker, or >= 2 labels out of order, '
+        'or the exposition pushed is empty; distinct by full case')
 TRUSTED = ['CPython urllib.parse.urlparse scheme detection (answered by CPython, passed to the model as a boolean)',
            'CPython str() of non-string label values (computed by the harness, outside the model)',
            'the Pushgateway rules as written in model/Gateway.v and in the Python decoder of this file: Go net/http un-escapes the '
            'request path with PathUnescape semantics ("+" stays "+") before routing; name@base64 values are URL-safe base64 with '
            'optional padding; label names match [a-zA-Z_][a-zA-Z0-9_]*',
-           'generate_latest(registry) is the text exposition (its correctness is C03/C05, here only that it is what is sent)']
+           'generate_latest(registry) is the text exposition (its correctness is C03/C05, here only that it is what is sent: '
+           'the harness computes it on an equal registry and hands the bytes to the model; for the registries without any '
+           'family the direct oracle expects the empty byte string outright)']
 ASSUMPTIONS = ['job is a str and grouping-key names are distinct legacy label names (the property quantifier); values are '
                'str()-ed by the library before encoding',
                'strings with lone surrogates are outside the property (not Unicode text): only the exception class is compared']
@@ -159,8 +167,95 @@ def ident(job, gk):
     return (job, tuple(sorted((k, str(vstr(v))) for k, v in gk)))
 
 
-def mk(api, gw, job, gk, timeout=0, twin=None, metric=('g', 0.0)):
-    return dict(api=api, gw=gw, job=job, gk=gk, timeout=timeout, twin=twin, metric=list(metric))
+def mk(api, gw, job, gk, timeout=0, twin=None, metric=('g', 0.0), reg=None, handler='func'):
+    c = dict(api=api, gw=gw, job=job, gk=gk, timeout=timeout, twin=twin, metric=list(metric))
+    if reg is not None and list(reg) != ['one', False]:
+        c['reg'] = list(reg)
+    if handler != 'func':
+        c['handler'] = handler
+    return c
+
+
+# registries: [kind, sized].  The first five kinds have NO metric family: their text exposition is the empty byte string.
+EMPTY_REGS = ['fresh', 'unregistered', 'nothing', 'nothing_gen', 'unregistered_all']
+FULL_REGS = ['one', 'nosamples', 'multi']
+REG_KINDS = EMPTY_REGS + FULL_REGS
+HANDLERS = ['func', 'obj', 'falsy']
+
+
+def reg_of(case):
+    return case.get('reg') or ['one', False]
+
+
+def build_registry(case):
+    """The registry the caller gives.  `sized`: a CollectorRegistry subclass with __len__ (so an empty one is falsy)."""
+    from prometheus_client import CollectorRegistry, Gauge, Info
+    kind, sized = reg_of(case)
+    if sized:
+        class SizedRegistry(CollectorRegistry):
+            def __len__(self):
+                return len(self._collector_to_names)
+        reg = SizedRegistry()
+    else:
+        reg = CollectorRegistry()
+    name, value = case['metric']
+
+    class Nothing:
+        def __init__(self, how):
+            self.how = how
+
+        def collect(self):
+            if self.how == 'list':
+                return []
+            if self.how == 'tuple':
+                return ()
+            return (x for x in ())
+
+    def add(metric):          # not `registry=reg`: the metric constructors skip a registry that is falsy (sized and empty)
+        reg.register(metric)
+        return metric
+
+    if kind == 'one':
+        add(Gauge(name, 'help', registry=None)).set(value)
+    elif kind == 'fresh':
+        pass
+    elif kind == 'unregistered':
+        g = add(Gauge(name, 'help', registry=None))
+        g.set(value)
+        reg.unregister(g)
+    elif kind == 'unregistered_all':
+        gs = [add(Gauge(name + suffix, 'help', registry=None)) for suffix in ('', '_b', '_c')]
+        for g in reversed(gs):
+            g.inc(3)
+            reg.unregister(g)
+    elif kind == 'nothing':
+        reg.register(Nothing('list'))
+    elif kind == 'nothing_gen':
+        reg.register(Nothing('gen'))
+        reg.register(Nothing('tuple'))
+    elif kind == 'nosamples':
+        add(Gauge(name, 'no child yet', ['shard'], registry=None))
+    elif kind == 'multi':
+        g = add(Gauge(name, 'help with \\ and\nline break', ['shard', 'zone'], registry=None))
+        g.labels('a b', 'é/"').set(value)
+        g.labels('', '€').set(-value)
+        add(Info(name + '_build', 'build', registry=None)).info({'version': '1.2.3'})
+        reg.register(Nothing('list'))
+    else:
+        raise ValueError(kind)
+    return reg
+
+
+_expo_cache = {}
+
+
+def expected_expo(case):
+    """generate_latest of a registry equal to the one given (TRUSTED); by definition of the empty kinds b'' there."""
+    key = (tuple(reg_of(case)), tuple(case['metric']))
+    if key not in _expo_cache:
+        from prometheus_client.exposition import generate_latest
+        _expo_cache[key] = generate_latest(build_registry(case))
+    return _expo_cache[key]
 
 
 DEFAULT_GW = dict(scheme='http', host='localhost:9091', prefix='', slashes=0)
@@ -178,6 +273,18 @@ def cases(ctx):
         yield mk(api, dict(DEFAULT_GW, slashes=1), 'my_job_with_trailing_slash', [], 5)
         yield mk(api, DEFAULT_GW, 'a b', [], 6, twin=dict(job='a+b', gk=[]))
         yield mk(api, DEFAULT_GW, 'j', [['b', ['s', 'x y']], ['a', ['s', 'p+q']]], 6)
+    # 0b. every api x registry kind (plain and sized) x handler kind, with the job alone (default key None / {}), and 2 labels
+    k = 0
+    for api in APIS:
+        for kind in REG_KINDS:
+            for sized in (False, True):
+                for hk in HANDLERS:
+                    k += 1
+                    yield mk(api, DEFAULT_GW, 'nightly', [], k % len(TIMEOUTS), reg=[kind, sized], handler=hk)
+                    yield mk(api, dict(DEFAULT_GW, scheme=None, slashes=k % 3), 'a b/', [['shard', ['s', 'a b']], ['B', ['s', '']]],
+                             (k + 1) % len(TIMEOUTS), reg=[kind, sized], handler=hk, metric=('queue_depth', 2.5))
+                    if ctx.thorough or k % 4 == ctx.seed % 4:
+                        yield mk(api, DEFAULT_GW, '', [['k', ['n']]], (k + 2) % len(TIMEOUTS), reg=[kind, sized], handler=hk)
     # 1. every gateway spelling once, with a key that needs all three encodings
     i = 0
     for scheme in [None, 'http', 'https', 'HTTP', 'Https']:
@@ -219,23 +326,48 @@ def cases(ctx):
         gk = rand_gk(rng)
         gw = rand_gw(rng) if rng.random() < 0.5 else DEFAULT_GW
         twin = twin_of(rng, job, gk) if rng.random() < 0.5 else None
+        r = rng.random()
+        reg = (['one', False] if r < 0.5 else [rng.choice(EMPTY_REGS), rng.random() < 0.3] if r < 0.8
+               else [rng.choice(FULL_REGS), rng.random() < 0.3])
         yield mk(rng.choice(APIS), gw, job, gk, rng.randrange(len(TIMEOUTS)), twin,
-                 (rng.choice(['g', 'queue_depth', 'm_1']), rng.choice([0.0, 1.0, 2.5, -3.0])))
+                 (rng.choice(['g', 'queue_depth', 'm_1']), rng.choice([0.0, 1.0, 2.5, -3.0])), reg,
+                 'func' if rng.random() < 0.7 else rng.choice(HANDLERS))
 
 
 # ---------------------------------------------------------------- implementation side
-def _call(api, gateway, job, gk_items, timeout, metric):
-    """Runs the library with a recording handler.  Returns dict(rec=..., calls=n, expo=bytes) or dict(err=class)."""
-    from prometheus_client import CollectorRegistry, Gauge
+def _call(case, job, gk_items):
+    """Runs the library with a recording handler.  Returns dict(recs=..., ran=[...]) or dict(err=class)."""
     from prometheus_client import exposition as ex
-    reg = CollectorRegistry()
-    g = Gauge(metric[0], 'help', registry=reg)
-    g.set(metric[1])
-    recs, invoked = [], []
+    api, gateway, timeout = case['api'], gw_string(case['gw']), case['timeout']
+    reg = build_registry(case)
+    recs, ran = [], []
+
+    def record(url, method, timeout, headers, data):
+        i = len(recs)
+        recs.append(dict(url=url, method=method, timeout=timeout, headers=headers, data=data))
+        ran.append(0)
+        return i
 
     def handler(url, method, timeout, headers, data):
-        recs.append(dict(url=url, method=method, timeout=timeout, headers=headers, data=data))
-        return lambda: invoked.append(1)
+        i = record(url, method, timeout, headers, data)
+
+        def run():
+            ran[i] += 1
+        return run
+
+    class Handler:
+        def __call__(self, url, method, timeout, headers, data):
+            self.i = record(url, method, timeout, headers, data)
+            return self.run
+
+        def run(self):
+            ran[self.i] += 1
+
+    class FalsyHandler(Handler):
+        def __len__(self):
+            return 0
+
+    h = {'func': handler, 'obj': Handler(), 'falsy': FalsyHandler()}[case.get('handler', 'func')]
     grouping_key = {}
     for k, v in gk_items:
         grouping_key[k] = vstr(v)
@@ -243,16 +375,23 @@ def _call(api, gateway, job, gk_items, timeout, metric):
         grouping_key = None          # the documented default
     try:
         if api == 'push':
-            ex.push_to_gateway(gateway, job, reg, grouping_key, TIMEOUTS[timeout], handler)
+            ex.push_to_gateway(gateway, job, reg, grouping_key, TIMEOUTS[timeout], h)
         elif api == 'pushadd':
-            ex.pushadd_to_gateway(gateway, job, reg, grouping_key, TIMEOUTS[timeout], handler)
+            ex.pushadd_to_gateway(gateway, job, reg, grouping_key, TIMEOUTS[timeout], h)
         else:
-            ex.delete_from_gateway(gateway, job, grouping_key, TIMEOUTS[timeout], handler)
+            ex.delete_from_gateway(gateway, job, grouping_key, TIMEOUTS[timeout], h)
     except ValueError:
         return dict(err='ValueError')
     except Exception as e:
         return dict(err='Other:' + type(e).__name__)
-    return dict(recs=recs, calls=len(invoked), expo=ex.generate_latest(reg))
+    return dict(recs=recs, ran=ran)
+
+
+def _body(data):
+    """The body as the property sees it: a byte string, shown as text (latin-1 keeps every byte)."""
+    if isinstance(data, (bytes, bytearray)):
+        return bytes(data).decode('latin-1')
+    return 'non-bytes:' + repr(data)[:80]
 
 
 def _canon_timeout(t):
@@ -263,29 +402,23 @@ def _canon_timeout(t):
 
 
 def impl(case):
-    r = _call(case['api'], gw_string(case['gw']), case['job'], case['gk'], case['timeout'], case['metric'])
+    r = _call(case, case['job'], case['gk'])
     if 'err' in r:
         obs = dict(err=r['err'])
     elif len(r['recs']) != 1:
         obs = dict(err='handler called %d times' % len(r['recs']))
     else:
         rec = r['recs'][0]
-        data = rec['data']
-        if data == b'':
-            body = 'empty'
-        elif data == r['expo']:
-            body = 'expo'
-        else:
-            body = 'other:' + repr(data[:60])
         try:
             ctype = [str(v) for (k, v) in rec['headers'] if str(k).lower() == 'content-type']
         except Exception:
             ctype = ['unreadable:' + repr(rec['headers'])[:80]]
         obs = dict(url=rec['url'] if isinstance(rec['url'], str) else 'non-str:' + repr(rec['url']),
-                   method=rec['method'], timeout=_canon_timeout(rec['timeout']), ctype=ctype, body=body, calls=r['calls'])
+                   method=rec['method'], timeout=_canon_timeout(rec['timeout']), ctype=ctype, body=_body(rec['data']),
+                   calls=r['ran'][0])
     if case.get('twin'):
         t = case['twin']
-        r2 = _call(case['api'], gw_string(case['gw']), t['job'], t['gk'], case['timeout'], case['metric'])
+        r2 = _call(case, t['job'], t['gk'])
         obs['twin'] = r2['recs'][0]['url'] if r2.get('recs') and len(r2['recs']) == 1 else 'err:' + str(r2.get('err', 'calls'))
     return obs
 
@@ -296,22 +429,26 @@ def _has_scheme(gateway):
     return urlparse(gateway).scheme in ('http', 'https')
 
 
-def _model_request(m, api, gateway, job, gk, timeout):
+def _model_request(m, case, job, gk):
+    api, gateway = case['api'], gw_string(case['gw'])
     items = [(k, str(vstr(v))) for k, v in gk]
-    r = d_res(lambda x: x, m.call('c19_request', True, APIS.index(api), _has_scheme(gateway), gateway, job, items, timeout))
+    r = d_res(lambda x: x, m.call('c19_request', True, APIS.index(api), _has_scheme(gateway), gateway, job, items,
+                                  expected_expo(case), case['timeout']))
     if r[0] == 'err':
         return dict(err=r[1])
-    url, (method, (t, (hdrs, body))) = r[1]
+    if len(r[1]) != 1:
+        return dict(err='handler called %d times' % len(r[1]))
+    url, (method, (t, (hdrs, body))) = r[1][0]
     return dict(url=d_str(url), method=d_str(method), timeout=d_int(t),
                 ctype=[d_str(v) for (k, v) in hdrs if d_str(k).lower() == 'content-type'],
-                body='expo' if d_bool(body) else 'empty', calls=1)
+                body=d_bytes(body).decode('latin-1'), calls=1)
 
 
 def model(m, case):
-    obs = _model_request(m, case['api'], gw_string(case['gw']), case['job'], case['gk'], case['timeout'])
+    obs = _model_request(m, case, case['job'], case['gk'])
     if case.get('twin'):
         t = case['twin']
-        o2 = _model_request(m, case['api'], gw_string(case['gw']), t['job'], t['gk'], case['timeout'])
+        o2 = _model_request(m, case, t['job'], t['gk'])
         obs['twin'] = o2['url'] if 'url' in o2 else 'err:' + o2['err']
     # cross-check of the model's own decoder (the theorem's other half) on the model's URL
     if 'url' in obs:
@@ -439,7 +576,9 @@ def direct(case, obs):
     if not all(_encodable(t) for t in texts):
         return None                                   # not Unicode text: outside the property
     if 'err' in obs:
-        return '%s(%r, job=%r, grouping_key=%r) failed: %s' % (case['api'], gw_string(case['gw']), job, gk, obs['err'])
+        return '%s(%r, job=%r, grouping_key=%r, registry=%s, handler=%s) failed: %s (exactly one %s request is due)' % (
+            case['api'], gw_string(case['gw']), job, gk, _reg_text(case), case.get('handler', 'func'), obs['err'],
+            METHOD[case['api']])
     url = obs['url']
     base = gw_expected_base(case['gw'])
     want = [('job', job)] + sorted((k, str(vstr(v))) for k, v in gk)
@@ -454,9 +593,13 @@ def direct(case, obs):
         return '%s used method %r, not %r' % (case['api'], obs['method'], METHOD[case['api']])
     if obs['ctype'] != [TEXT_CT]:
         return '%s sent Content-Type %r, not the text exposition type' % (case['api'], obs['ctype'])
-    wantbody = 'empty' if case['api'] == 'delete' else 'expo'
+    if case['api'] == 'delete' or reg_of(case)[0] in EMPTY_REGS:
+        wantbody, what = '', 'the empty body'
+    else:
+        wantbody, what = expected_expo(case).decode('latin-1'), 'the text exposition of the given registry'
     if obs['body'] != wantbody:
-        return '%s sent body %s, expected %s' % (case['api'], obs['body'], wantbody)
+        return '%s (registry=%s) sent body %s, expected %s %s' % (
+            case['api'], _reg_text(case), _short(obs['body'], 120), what, _short(wantbody, 120))
     if obs['timeout'] != case['timeout']:
         return '%s handed timeout %r to the handler, the caller gave %r' % (case['api'], obs['timeout'], TIMEOUTS[case['timeout']])
     if obs['calls'] != 1:
@@ -479,9 +622,14 @@ def direct(case, obs):
     return None
 
 
-def _short(x):
+def _short(x, n=300):
     r = repr(x)
-    return r if len(r) < 300 else r[:300] + '...'
+    return r if len(r) < n else r[:n] + '...'
+
+
+def _reg_text(case):
+    kind, sized = reg_of(case)
+    return kind + ('(sized)' if sized else '')
 
 
 # ---------------------------------------------------------------- bookkeeping
@@ -498,7 +646,7 @@ def _needs(s):
 def nontrivial(case, obs):
     kinds = {_needs(case['job'])} | {_needs(str(vstr(v))) for _k, v in case['gk']}
     keys = [k for k, _v in case['gk']]
-    return bool(kinds - {'plain'}) or keys != sorted(keys)
+    return bool(kinds - {'plain'}) or keys != sorted(keys) or (case['api'] != 'delete' and reg_of(case)[0] in EMPTY_REGS)
 
 
 def classify(case, obs):
@@ -510,6 +658,10 @@ def classify(case, obs):
         out.append('value:' + (_needs(str(vstr(v))) if v[0] == 's' else 'non-str:' + v[0]))
     g = case['gw']
     out.append('gw:%s,slashes=%d%s' % (g['scheme'] or 'no-scheme', g['slashes'], ',prefix' if g['prefix'] else ''))
+    out.append('registry:' + _reg_text(case))
+    out.append('handler:' + case.get('handler', 'func'))
+    if case['api'] != 'delete':
+        out.append('%s_of_%s_exposition' % (case['api'], 'EMPTY' if reg_of(case)[0] in EMPTY_REGS else 'non-empty'))
     if 'err' in obs:
         out.append('outcome:' + obs['err'])
     else:
@@ -539,6 +691,11 @@ def neighbours(case):
             out.append(dict(case, gk=gk, twin=None))
     for sl in (0, 1, 2):
         out.append(dict(case, gw=dict(case['gw'], slashes=sl)))
+    for kind in REG_KINDS:
+        out.append(dict(case, reg=[kind, False]))
+        out.append(dict(case, reg=[kind, True]))
+    for hk in HANDLERS:
+        out.append(dict(case, handler=hk))
     out.append(dict(case, gk=list(reversed(case['gk']))))
     for t in range(len(TIMEOUTS)):
         out.append(dict(case, timeout=t))
@@ -555,6 +712,14 @@ def shrinks(case):
                 yield dict(case, gw=dict(case['gw'], **{f: v}))
     if case['api'] != 'push':
         yield dict(case, api='push')
+    kind, sized = reg_of(case)
+    if sized:
+        yield dict(case, reg=[kind, False])
+    if kind not in ('one', 'fresh'):
+        yield dict(case, reg=['one', sized])
+        yield dict(case, reg=['fresh', sized])
+    if case.get('handler', 'func') != 'func':
+        yield dict(case, handler='func')
     if case['timeout'] != 0:
         yield dict(case, timeout=0)
     gk = case['gk']
